@@ -49,19 +49,19 @@ func Send(rw io.ReadWriter, streamData *stream.Info, ws bool, version stream.Ver
 	}
 
 	if id != "" {
-		_, err = fmt.Fprintf(b, " id='%s'", id)
+		err = writeAttr(b, "id", id)
 		if err != nil {
 			return err
 		}
 	}
 	if to != "" {
-		_, err = fmt.Fprintf(b, " to='%s'", to)
+		err = writeAttr(b, "to", to)
 		if err != nil {
 			return err
 		}
 	}
 	if from != "" {
-		_, err = fmt.Fprintf(b, " from='%s'", from)
+		err = writeAttr(b, "from", from)
 		if err != nil {
 			return err
 		}
@@ -92,6 +92,21 @@ func Send(rw io.ReadWriter, streamData *stream.Info, ws bool, version stream.Ver
 	}
 
 	return b.Flush()
+}
+
+// writeAttr writes an attribute with its value escaped (addresses may contain
+// quotes, ampersands and angle brackets in the resourcepart).
+func writeAttr(b *bufio.Writer, name, value string) error {
+	_, err := b.WriteString(" " + name + "='")
+	if err != nil {
+		return err
+	}
+	err = xml.EscapeText(b, []byte(value))
+	if err != nil {
+		return err
+	}
+	_, err = b.WriteString("'")
+	return err
 }
 
 // Expect reads a token from d and expects that it will be a new stream start
